@@ -405,6 +405,10 @@ var typeErrorQueries = []struct{ name, sql string }{
 	{"union.right", "SELECT un1 AS v FROM u1 UNION ALL SELECT ('x' + 1) AS v FROM t1"},
 	{"subq.exists.star", "SELECT rid FROM t1 WHERE EXISTS (SELECT * FROM arr WHERE 'x' + 1 > 2)"},
 	{"subq.notexists.star", "SELECT rid FROM t1 WHERE NOT EXISTS (SELECT * FROM arr WHERE NOT 5)"},
+	// a GROUP BY item that cannot be grouped by is an error, not a query that silently runs ungrouped
+	{"group.expr", "SELECT COUNT(*) AS c FROM t1 GROUP BY TO_LOWER(s1)"},
+	{"group.expr.second", "SELECT s1, COUNT(*) AS c FROM t1 GROUP BY s1, (n1 + 1)"},
+	{"group.expr.raise", "SELECT s1, COUNT(*) AS c FROM t1 GROUP BY RAISE('boom'), s1"},
 	{"raise", "SELECT rid, RAISE('always') FROM t1"},
 	// a guard whose condition is not a boolean is a type error, not a guard that does not fire
 	{"raise_when.cond-string", "SELECT rid, RAISE_WHEN('yes', 'x') FROM t1"},
